@@ -914,6 +914,10 @@ class Ref(Field):
 
         assert isinstance(referenced, Packet)
 
+        # the selector may hand out the same packet object every time (like
+        # chooses({...: APacket()}) does): parse into a new instance of its
+        # class so two parsed packets never share the referenced one
+        referenced = referenced.__class__(_initialize_fields=False)
         setattr(pkt, self.field_name, referenced)
         return referenced.unpack_impl(raw, offset, **k)
 
